@@ -57,7 +57,12 @@ static Json genC15(const std::string &prop, uint64_t seed, const std::string &ti
     for (int i = 0; i < n; i++) ss.push(anySession(r, tier, false));
     p.set("sessions", ss);
     // LeakSanitizer's stop-the-world check costs ~350 ms: run it in one run out of six
-    p.set("leakcheck", seed % 6 == 0);
+    // ... and in every world in which a layout is ended early through its callbacks (PreIteration returning false, the
+    // convergence test stopping it): the clean-up of those paths is exactly what only a leak check sees
+    bool early = false;
+    for (auto &sj : ss.a) { std::string k = sj.str("kind", ""); if (k != "layout" && k != "topolayout") continue;
+        for (auto &oj : sj["ops"].a) for (auto &f : oj["faults"].a) if (f.has("interrupt_at_precall") || f.has("stop_at_iter")) early = true; }
+    p.set("leakcheck", seed % 6 == 0 || early);
     return p;
 }
 
